@@ -113,6 +113,13 @@ func genMapFamilies(g genCfg, c ContainerKind, level int, full bool) []*MapScen 
 			}
 		}
 	}
+	// F4d: very long chain
+	for _, a := range []MIn{opStore, opDelete, opLaD} {
+		for _, b := range []MIn{opLoad, opStore, opLoS} {
+			add(&MapScen{Rel: RelSD, NKeys: 3, Init: []int{1, 1, 0}, Table: TLongChain, Threads: [][]MIn{{on(a, 0)}, {on(b, 1)}}})
+			add(&MapScen{Rel: RelSD, NKeys: 3, Init: []int{1, 1, 0}, Table: TLongChain, Threads: [][]MIn{{on(a, 2)}, {on(b, 2)}}})
+		}
+	}
 	// F4b: the insert appends a new bucket to a full chain while others read / write / traverse that chain
 	for _, ins := range insertOps {
 		for _, b := range append(append([]MIn{}, allOps...), opRange) {
